@@ -53,6 +53,10 @@ type c12Params struct {
 	// BigFiles: inputs of 17-40 KiB (anything done per file in parallel for
 	// large files only).
 	BigFiles bool `json:"big_files,omitempty"`
+	// FlipVolume alters one byte of the first recovery file before Repair.
+	FlipVolume bool `json:"flip_volume,omitempty"`
+	// HugeG uses goroutine options of 2^16 and beyond.
+	HugeG bool `json:"huge_g,omitempty"`
 	// Missing is the number of data shards removed before reconstruction in
 	// coder mode (default 2); the coder gets Missing+2 parity shards.
 	Missing int `json:"missing,omitempty"`
@@ -137,11 +141,14 @@ func (c *c12) Cases(tier string, seed int64) []core.Case {
 		cse.Race = true
 		cs = append(cs, cse)
 	}
+	// goroutine options far beyond any core count (2^16 and its neighbours,
+	// 2^20, 2^31-1)
+	cs = append(cs, core.MkCase("coder-huge-goroutine-options", c12Params{Mode: "coder", Lens: []int{2, 34, 130, 4096}, Workers: []int{255, 256, 257, 65535, 65536, 65537, 131072, 1 << 20, 1<<31 - 1}, Procs: 4, Seed: r.Int63(), Repeats: 1}))
 	for _, pr := range []int{1, 4, 16} {
 		cs = append(cs, core.MkCase(fmt.Sprintf("sparse-reconstruction-procs%d", pr), c12Params{Mode: "sparse", Procs: pr, Seed: r.Int63()}))
 	}
 	for i := 0; i < 4; i++ {
-		cse := core.MkCase(fmt.Sprintf("race-create-%d", i), c12Params{Mode: "create", Seed: r.Int63(), RaceMode: true, Dup: map[bool]string{true: "yes"}[i%2 == 0], BigFiles: i == 1})
+		cse := core.MkCase(fmt.Sprintf("race-create-%d", i), c12Params{Mode: "create", Seed: r.Int63(), RaceMode: true, Dup: map[bool]string{true: "yes"}[i%2 == 0], BigFiles: i == 1, FlipVolume: i == 3})
 		cse.Race = true
 		cs = append(cs, cse)
 	}
@@ -150,7 +157,7 @@ func (c *c12) Cases(tier string, seed int64) []core.Case {
 		n = 60
 	}
 	for i := 0; i < n; i++ {
-		cs = append(cs, core.MkCase(fmt.Sprintf("create-%d", i), c12Params{Mode: "create", Seed: r.Int63(), Dup: map[bool]string{true: "yes"}[i%4 == 0], Bogus: i%4 == 2, Conflict: i%4 == 3, BigFiles: i%6 == 1}))
+		cs = append(cs, core.MkCase(fmt.Sprintf("create-%d", i), c12Params{Mode: "create", Seed: r.Int63(), Dup: map[bool]string{true: "yes"}[i%4 == 0], Bogus: i%4 == 2, Conflict: i%4 == 3, BigFiles: i%6 == 1, FlipVolume: i%4 == 1, HugeG: i%3 == 0}))
 	}
 	cs = append(cs, core.MkCase("cores-unknown", c12Params{Mode: "cores", Seed: r.Int63()}))
 	return cs
@@ -624,6 +631,9 @@ func (c *c12) runCreate(r *core.R, p c12Params) {
 		set.Content = "dupslices"
 	}
 	gs := []int{1, 2, 3, 7, 16, 64, 1000}
+	if p.HugeG {
+		gs = []int{1, 2, 16, 65536, 65537, 1 << 20}
+	}
 	if p.RaceMode {
 		gs = []int{1, 3, 16}
 	}
@@ -666,6 +676,17 @@ func (c *c12) runCreate(r *core.R, p c12Params) {
 		}
 		if p.Conflict {
 			c12ConflictingBlock(dir)
+		}
+		if p.FlipVolume {
+			// one byte of the first recovery file altered (inside a packet):
+			// whatever Repair makes of that, it makes it for every option
+			if vols, _ := filepath.Glob(filepath.Join(dir, "set.vol*.par2")); len(vols) > 0 {
+				sort.Strings(vols)
+				if b, err := os.ReadFile(vols[0]); err == nil && len(b) > 80 {
+					b[len(b)-3] ^= 0x20
+					os.WriteFile(vols[0], b, 0644)
+				}
+			}
 		}
 		// Damage: remove the first file and repair with this g.
 		os.Remove(paths[0])
